@@ -16,7 +16,7 @@ def register(add):
                bound_note='configuration w8 (8-bit digits, RLC_BN_SIZE=10): buffers up to 12 bytes; loops unwound completely. '
                'The 64-bit configurations time out on this function (writes at symbolic offsets)')
     add('bn_write_bin@w8', ['C07', 'C08'], 'bn_write_bin', sources=[UTIL], decls='bn_st *a; uint8_t *bin; size_t len;',
-        call='bn_write_bin(bin, len, a)', replace=['bn_size_bin'], timeout=400, **w8b)
+        call='bn_write_bin(bin, len, a)', replace=['bn_size_bin', 'bn_bits'], timeout=400, **w8b)
     add('bn_read_bin@w8', ['C07', 'C08'], 'bn_read_bin', sources=[UTIL], decls='bn_st *a; const uint8_t *bin; size_t len;',
         call='bn_read_bin(a, bin, len)', replace=['bn_grow', 'bn_zero', 'bn_trim'], **w8b)
     add('bn_size_raw@p128', ['C07'], 'bn_size_raw', sources=[UTIL], decls='bn_st *a;', call='bn_size_raw(a)', **common)
